@@ -169,7 +169,11 @@ func (st *c05State) check(cs *c05Case) {
 		// the target is configured twice (another rectangle first, the final one only after Reset
 		// and after a first path that ends on curves): the judged path is the second path of its
 		// graphic, and nothing of the first - pen, control points, sub-path start, scale - carries over
-		z.SetRasterizer(&st.ras, image.Rect(2, 1, 2+rect.Dy()+3, 1+rect.Dx()+9))
+		first := image.Rect(2, 1, 2+rect.Dy()+3, 1+rect.Dx()+9)
+		if (cs.VB+len(cs.Letters))%2 == 0 {
+			first = rect.Add(image.Pt(21, 13)) // the same size at another place: only the position changes later
+		}
+		z.SetRasterizer(&st.ras, first)
 		z.Reset(vb, ivg.DefaultPalette)
 		z.StartPath(0, vb.MinX+1, vb.MinY+1)
 		z.AbsQuadTo(2, 3, 4, 5)
